@@ -72,6 +72,34 @@ def run_impl(case, d):
                 rows.append(row)
             second[r] = sorted(rows)
         out["second"] = {r: [(a, b_) for a, b_ in zip(out[r], second[r]) if a != b_][:3] for r in ranks}
+        # the other observable: get_stack_of_node(idx) = the node, its descendants and (unless skipped) its ancestors, with the table's columns
+        import random as _random
+        rng = _random.Random(len(ranks) * 1000 + sum(len(out[r]) for r in ranks))
+        stacks = {}
+        for r in ranks:
+            hosts = [x for x in out[r] if x[2] >= 0 and frames[r][0] is not None]
+            ev = {x["idx"]: x for x in frames[r]}
+            hosts = [x for x in hosts if ev[x[0]]["stream"] < 0]
+            picks = rng.sample(hosts, min(3, len(hosts)))
+            res = []
+            for x in picks:
+                for skip in (False, True):
+                    try:
+                        sdf = cg2.get_stack_of_node(x[0], rank=r, skip_ancestors=skip)
+                        rows_ = []
+                        for rec in sdf.to_dict("records"):
+                            row = [fw.as_int(rec["index"])]
+                            for c in COLS:
+                                v = fw.as_int(rec[c])
+                                if c == "parent" and v < 0:
+                                    v = -1
+                                row.append(v)
+                            rows_.append(row)
+                        res.append([x[0], skip, sorted(rows_)])
+                    except Exception as e:
+                        res.append([x[0], skip, "error: " + type(e).__name__ + ": " + str(e)[:160]])
+            stacks[r] = res
+        out["stacks"] = stacks
     except Exception as e:
         import traceback
         out = {"error": type(e).__name__ + ": " + str(e)[:200] + " @ " + traceback.format_exc()[-300:]}
@@ -165,6 +193,38 @@ def compare(case, impl, model):
     for r, dd in (o.get("second") or {}).items():
         if dd:
             disc.append(f"rank {r}: a second CallGraph over the same trace reports different stack columns (first, second): {dd[:2]}")
+    for r, res in (o.get("stacks") or {}).items():
+        table = {x[0]: x for x in o[r]}
+        kids = {}
+        for x in o[r]:
+            if x[1] >= 0:
+                kids.setdefault(x[1], []).append(x[0])
+        for i, skip, rows_ in res:
+            if isinstance(rows_, str):
+                disc.append(f"rank {r}: get_stack_of_node({i}, skip_ancestors={skip}) raised {rows_}")
+                continue
+            want = {i}
+            todo = [i]
+            while todo:
+                c = todo.pop()
+                for k in kids.get(c, []):
+                    if k not in want:
+                        want.add(k)
+                        todo.append(k)
+            if not skip:
+                a = table[i][1]
+                seen = set()
+                while a >= 0 and a in table and a not in seen:
+                    seen.add(a)
+                    want.add(a)
+                    a = table[a][1]
+            got_ids = sorted(x[0] for x in rows_)
+            if got_ids != sorted(want):
+                disc.append(f"rank {r}: get_stack_of_node({i}, skip_ancestors={skip}) returns events {got_ids[:12]}, the node with its descendants"
+                            f"{'' if skip else ' and ancestors'} in the table is {sorted(want)[:12]}")
+            elif any(x != table[x[0]] for x in rows_):
+                bad = [(x, table[x[0]]) for x in rows_ if x != table[x[0]]][:2]
+                disc.append(f"rank {r}: get_stack_of_node({i}) reports columns that differ from the table: {bad}")
     for (r, rows), (m, checker_ok) in zip(sorted(impl["frames"].items()), model):
         got = o[r]
         if not checker_ok:
@@ -182,7 +242,7 @@ def nontrivial(case, impl):
     o = impl["out"]
     if "error" in o:
         return False
-    return any(x[2] >= 1 and x[4] >= 2 for k, rows in o.items() if k != "second" for x in rows)
+    return any(x[2] >= 1 and x[4] >= 2 for k, rows in o.items() if k not in ("second", "stacks") for x in rows)
 
 
 def _tid0_rows(rows):
